@@ -313,7 +313,24 @@ class Expander:
                 inv = '\n' + '\n'.join(loop_secs[n_]) + '\n'
                 body_text = body_text[:bopen] + inv + body_text[bopen:]
         # closure contracts (rule E5b): the n-th closure of the emitted body gets the annotated header from the contract file
-        clo_secs = {int(k.split()[1]): v for k, v in sections.items() if k.startswith('closure ')}
+        clo_secs = {int(k.split()[1]): v for k, v in sections.items() if k.startswith('closure ') and k.split()[1].isdigit()}
+        # content-addressed closures: `closure ~<regex>:` = the first closure whose text matches (robust against
+        # closures being inserted or removed elsewhere in the function)
+        clo_rx = {k.split(' ', 1)[1][1:]: v for k, v in sections.items() if k.startswith('closure ~')}
+        if clo_rx:
+            tmp = Source('<body>', body_text)
+            clos = tmp.closures_in(0, len(body_text))
+            for rx_, v_ in clo_rx.items():
+                hit = None
+                for idx_, (bar, hend, bs, be, is_block) in enumerate(clos):
+                    if idx_ + 1 in clo_secs:
+                        continue
+                    if re.search(rx_, body_text[bar:be]):
+                        hit = idx_ + 1
+                        break
+                if hit is None:
+                    raise AnchorLost('%s: no closure matches /%s/' % (label, rx_))
+                clo_secs[hit] = v_
         if clo_secs:
             tmp = Source('<body>', body_text)
             clos = tmp.closures_in(0, len(body_text))
@@ -445,7 +462,7 @@ class Expander:
                     l2 = lines[i]
                     s2 = l2.strip()
                     if s2.startswith('//@'):
-                        m = re.match(r'//@\s+([a-z\-]+(?: \d+)?):\s?(.*)$', s2)
+                        m = re.match(r'//@\s+([a-z\-]+(?: \d+| ~.+?)?):\s(.*)$', s2) or re.match(r'//@\s+([a-z\-]+(?: \d+| ~.+?)?):()$', s2)
                         if not m:
                             raise SystemExit('bad directive line: ' + l2)
                         key = m.group(1)
